@@ -64,7 +64,8 @@ class Spliced:
                 self.origin.append(origin)
 
 
-def splice(tmpl_path, repo_root):
+def splice(tmpl_path, repo_root, stub_labels=None):
+    stub_labels = stub_labels or {}
     def load(path, depth=0):
         res = []
         for ln in open(path).read().split('\n'):
@@ -181,6 +182,8 @@ def splice(tmpl_path, repo_root):
                 else:
                     break
             def host_body():
+                if cur and cur['label'] in stub_labels:
+                    raise LostAnchor(stub_labels[cur['label']])
                 if 'const' in a:
                     # a const initialiser hosted as a function body (R2), so that the rewrite directives apply to it
                     c = find_const(repo_text(a['file']), a['const'], a.get('ctx'), int(a.get('index', 0)))
